@@ -10,7 +10,8 @@
     - components: imports contravariant (every import of the subtype is provided by the supertype's
       import of the same name, whose type is a subtype), exports covariant;
     - core modules: as components, on core extern types, with core import matching:
-      limits  a.min >= b.min  and  (b.max absent  or  a.max present and a.max <= b.max); everything else equal.
+      limits  a.min >= b.min  and  (b.max absent  or  a.max present and a.max <= b.max); everything else equal
+      (an absent memory page size means the default 2^16).
 
     Resources are generative in the component model; this specification is about the resource-free
     fragment.  The relation takes the treatment of resource names as a parameter [RES] so that one set of
@@ -22,8 +23,16 @@ Inductive Opt2 {A} (P : A -> A -> Prop) : option A -> option A -> Prop :=
 | Opt2_none : Opt2 P None None
 | Opt2_some x y : P x y -> Opt2 P (Some x) (Some y).
 
+(** A memory type without an explicit page size has the default page size 2^16 (custom-page-sizes proposal):
+    the two spellings denote the same type. *)
+Definition page_log2 (p : option N) : N := match p with Some x => x | None => 16 end.
+Definition PageCM (a b : option N) : Prop := page_log2 a = page_log2 b.
+
 Section Rules.
   Variable RES : str -> str -> Prop.
+  (** when two memory page sizes are the same: [PageCM] for the property; [eq] on the [Option]s is what the
+      checker does (see C07 [algo_iff_declarative_refuted]) *)
+  Variable PG : option N -> option N -> Prop.
 
   Inductive VSub : vtree -> vtree -> Prop :=
   | VS_prim p : VSub (VTPrim p) (VTPrim p)
@@ -57,8 +66,8 @@ Section Rules.
   Inductive ESub : coreextern -> coreextern -> Prop :=
   | ES_func f : ESub (CEFunc f) (CEFunc f)
   | ES_table e ai am bi bm t64 sh : limits_ok ai am bi bm -> ESub (CETable e ai am t64 sh) (CETable e bi bm t64 sh)
-  | ES_memory m64 sh ai am bi bm ps : limits_ok ai am bi bm ->
-                                      ESub (CEMemory m64 sh ai am ps) (CEMemory m64 sh bi bm ps)
+  | ES_memory m64 sh ai am bi bm pa pb : limits_ok ai am bi bm -> PG pa pb ->
+                                         ESub (CEMemory m64 sh ai am pa) (CEMemory m64 sh bi bm pb)
   | ES_global v m sh : ESub (CEGlobal v m sh) (CEGlobal v m sh)
   | ES_tag f : ESub (CETag f) (CETag f).
   Definition MSub (a b : moduletype) : Prop :=
@@ -90,11 +99,12 @@ End Rules.
 
 (** The property's relation: no rule relates two resources. *)
 Definition NoRes (_ _ : str) : Prop := False.
-Definition SubCM : tree -> tree -> Prop := Sub NoRes.
+Definition SubCM : tree -> tree -> Prop := Sub NoRes PageCM.
 
 (** * Executable form (a decision procedure for [Sub]; proved equivalent in proofs/SubSpecProofs.v) *)
 Section Decide.
   Variable res_b : str -> str -> bool.
+  Variable pg_b : option N -> option N -> bool.
 
   Definition opt2_b {A} (p : A -> A -> bool) (a b : option A) : bool :=
     match a, b with None, None => true | Some x, Some y => p x y | _, _ => false end.
@@ -161,7 +171,7 @@ Section Decide.
       reftype_eqb ae be && limits_b ai am bi bm && Bool.eqb a64 b64 && Bool.eqb ash bsh
     | CEMemory a64 ash ai am ap, CEMemory b64 bsh bi bm bp =>
       Bool.eqb a64 b64 && Bool.eqb ash bsh && limits_b ai am bi bm
-      && match ap, bp with Some x, Some y => x =? y | None, None => true | _, _ => false end
+      && pg_b ap bp
     | CEGlobal av am ash, CEGlobal bv bm bsh => coretype_eqb av bv && Bool.eqb am bm && Bool.eqb ash bsh
     | _, _ => false
     end.
@@ -202,7 +212,10 @@ Fixpoint tdepth (t : tree) : nat :=
   end.
 
 Definition nores_b (_ _ : str) : bool := false.
+Definition pagecm_b (a b : option N) : bool := page_log2 a =? page_log2 b.
+Definition popt_eqb (a b : option N) : bool :=
+  match a, b with Some x, Some y => x =? y | None, None => true | _, _ => false end.
 (** The verdict of the specification on two trees. *)
-Definition sub_b (a b : tree) : bool := sub_f nores_b (S (Nat.max (tdepth a) (tdepth b))) a b.
-(** Same with resource names compared (what the checker does; outside the property's fragment). *)
-Definition sub_names_b (a b : tree) : bool := sub_f str_eqb (S (Nat.max (tdepth a) (tdepth b))) a b.
+Definition sub_b (a b : tree) : bool := sub_f nores_b pagecm_b (S (Nat.max (tdepth a) (tdepth b))) a b.
+(** Same with resource names compared and page sizes compared as written (what the checker does). *)
+Definition sub_names_b (a b : tree) : bool := sub_f str_eqb popt_eqb (S (Nat.max (tdepth a) (tdepth b))) a b.
